@@ -137,6 +137,7 @@ def _set_with_op(container: Any, key: Any, op: str, value: Any) -> Any:
     _check_array_size(container)
 
     key = _key_cast(container, key)
+    result = value
     value = copy.deepcopy(value)
 
     try:
@@ -153,7 +154,7 @@ def _set_with_op(container: Any, key: Any, op: str, value: Any) -> Any:
     except LookupError:
         raise ParserError(f'Key error \'{key}\'')
 
-    return value
+    return result
 
 
 def _map(container: Any, f: Callable) -> Any:
